@@ -203,9 +203,11 @@ def check_view(w, ref, cfg):
 
 
 def check_signals(cfg, events, before, after):
-    """-> (ok, why)"""
-    if before == after and not events:
-        return True, ""
+    """-> (ok, why).  The events of one key must form a chain of modifications old -> t1 -> ... -> new,
+    each announced by change(t_i) while t_(i-1) is still held and followed by postchange(t_(i-1)) once
+    t_i is held.  (First formulation demanded "no signals when the text is the same before and after
+    the key" -- a false alarm: typing '0' into an empty IntEdit really modifies the text twice,
+    '' -> '0' -> '' (leading-zero trimming), and signals both; the demand is now per pair.)"""
     if len(events) % 2:
         return False, "odd number of signals"
     cur = before
@@ -216,6 +218,8 @@ def check_signals(cfg, events, before, after):
         if c[2] != cur:
             return False, f"'change' emitted while the widget held {c[2]!r}, expected the old text {cur!r}"
         new = c[1]
+        if new == cur:
+            return False, f"change/postchange signalled without a modification ({cur!r})"
         if p[1] != cur:
             return False, f"'postchange' argument {p[1]!r} is not the old text {cur!r}"
         if p[2] != new:
@@ -225,12 +229,9 @@ def check_signals(cfg, events, before, after):
                 return False, f"edit_pos {e[3]} outside 0..{len(e[2])} inside the {e[0]} handler"
         cur = new
     if cur != after:
-        return False, f"last announced text {cur!r} is not the final text {after!r}"
-    n = len(events) // 2
-    if before == after:
-        return False, f"{n} change/postchange pair(s) without a modification"
-    if cfg["kind"] == "edit" and n != 1:
-        return False, f"{n} change/postchange pairs for one modification"
+        return False, f"last announced text {cur!r} is not the final text {after!r}" if events else f"text changed {before!r} -> {after!r} without signals"
+    if cfg["kind"] == "edit" and len(events) > 2:
+        return False, f"{len(events) // 2} change/postchange pairs for one modification"
     return True, ""
 
 
@@ -355,7 +356,12 @@ def apply_and_check(w, ref, cfg, ev, log):
     # ---- numeric alphabet
     if cfg["kind"] != "edit":
         ok = alphabet_ok(cfg, after_text)
-        v["numeric-alphabet"] = (ok, f"text {after_text!r} holds a character outside the alphabet / a '-' that is not a single leading sign", True)
+        if ok:
+            v["numeric-alphabet"] = (True, "", True)
+        else:
+            kind = "a '-' that is not a single leading sign" if alphabet_ok(cfg, after_text.replace("-", "")) else "a character outside the alphabet"
+            how = "introduced by this event" if alphabet_ok(cfg, before_text) else "still held"
+            v["numeric-alphabet"] = (False, f"{kind} ({how}): text {after_text!r}", True)
 
     # ---- view
     try:
@@ -454,7 +460,7 @@ class Tally:
 
 def _why_class(clause, why, ev):
     e = ev[0] if isinstance(ev, (list, tuple)) else (ev if ev is None or len(ev) > 1 else "printable")
-    w = why.split(":")[0] if clause == "no-exception" else "".join(c for c in why if not c.isdigit())[:30]
+    w = why.split(":")[0] if clause in ("no-exception", "numeric-alphabet") else "".join(c for c in why if not c.isdigit())[:30]
     return f"{e}|{w}"
 
 
@@ -466,7 +472,7 @@ def record(tally, cfg, text0, pos0, path, ev, verdicts, obs):
         tally.case(clause, ok, nt, detail, sample={"cfg": cfg, "text0": text0, "pos0": pos0, "path": list(path), "event": ev})
 
 
-def events_for(cfg, ref, full, clicks):
+def events_for(cfg, ref, full, clicks, pref_keys=None):
     if cfg["kind"] != "edit":
         evs = list(NUM_KEYS)
     elif full is True:
@@ -474,7 +480,7 @@ def events_for(cfg, ref, full, clicks):
     elif full == "probe":
         evs = ["up", "down"]
     else:
-        evs = list(PREF_KEYS)
+        evs = list(pref_keys or PREF_KEYS)
     if full is True:
         evs = [*evs, ("press", 3, 0, 0)]
     if clicks and ref.displayable():
@@ -502,13 +508,13 @@ def explore(task):
             text0, pos0, path, ref, full = queue[qi]
             qi += 1
             depth = len(path)
-            for ev in events_for(cfg, ref, full, clicks=depth <= task["click_depth"]):
+            for ev in events_for(cfg, ref, full, clicks=depth <= task["click_depth"], pref_keys=task.get("pref_keys")):
                 v, alive, obs, ref2 = evaluate(cfg, text0, pos0, list(path), ev, ref)
                 record(tally, cfg, text0, pos0, path, ev, v, obs)
                 if not alive or depth + 1 > task["depth"]:
                     continue
                 sig = ("".join(ref2.text), ref2.pos, ref2.prefs)
-                if sig in visited:
+                if sig in visited and (numeric or ref2.prefs != (None,)):
                     continue
                 if numeric:
                     if len(ref2.text) > task["expand_len"]:
@@ -523,7 +529,7 @@ def explore(task):
                         # reached from a state that carried a preferred column, probe once that the
                         # column really was forgotten (up/down on this very widget)
                         if full is False and isinstance(ev, str) and ev not in ("up", "down"):
-                            psig = (*sig, "probe")
+                            psig = (*sig, "probe", ref.prefs)
                             if psig not in visited:
                                 visited.add(psig)
                                 queue.append((text0, pos0, (*path, ev), ref2, "probe"))
@@ -641,29 +647,31 @@ EXTRA_TEXTS = ["a aaa", "aa aaa", "ab 中c", "a中a中a", "aa\naaaa\na", "a  a a
 def configs(tier):
     quick = tier == "quick"
     cfgs = []
-    widths = [1, 2, 3, 4] if quick else [1, 2, 3, 4, 5, 6]
-    # core: every wrap x align x width, plain settings
+    # core ("plain"): every wrap x align x width, no caption, str, no mask
     for wrap in ("space", "any", "clip"):
         for align in ("left", "center", "right"):
-            for W in widths:
+            for W in (1, 2, 3, 4) if quick else (1, 2, 3, 4, 5, 6):
+                if quick and W == 4 and align != "left":
+                    continue
                 cfgs.append(edit_cfg("", W, wrap, align, multiline=True))
     # captions
     caps = ["a", "中 "] if quick else ["a", "ab", "中 ", "a\n", "́", "a "]
+    shapes = (("left", 2), ("right", 3)) if quick else tuple(itertools.product(("left", "center", "right"), (1, 2, 3, 4, 5)))
     for cap in caps:
         for wrap in ("space", "any", "clip"):
-            for align, W in (("left", 2), ("left", 3), ("right", 3), ("center", 4)) if quick else itertools.product(("left", "center", "right"), (1, 2, 3, 4, 5)):
+            for align, W in shapes:
                 cfgs.append(edit_cfg(cap, W, wrap, align, multiline=True))
     # flags
     for wrap in ("space", "any", "clip"):
-        for W in (2, 3) if quick else (1, 2, 3, 5):
+        for W in (3,) if quick else (1, 2, 3, 5):
             cfgs.append(edit_cfg("", W, wrap, "left", multiline=False, allow_tab=True))
             cfgs.append(edit_cfg("a", W, wrap, "right", multiline=True, allow_tab=True, mask="*"))
             cfgs.append(edit_cfg("", W, wrap, "left", multiline=True, mask="中"))
-    # bytes
+    # bytes (UTF-8)
     for wrap in ("space", "any", "clip"):
-        for W, align in ((2, "left"), (3, "right")) if quick else ((1, "left"), (2, "left"), (3, "right"), (4, "center"), (5, "left")):
+        for W, align in ((2, "left"),) if quick else ((1, "left"), (2, "left"), (3, "right"), (4, "center"), (5, "left")):
             cfgs.append(edit_cfg("", W, wrap, align, multiline=True, unit="bytes"))
-            cfgs.append(edit_cfg("a", W, wrap, align, multiline=True, allow_tab=True, unit="bytes"))
+            cfgs.append(edit_cfg("a", W + 1, wrap, align, multiline=True, allow_tab=True, unit="bytes"))
     for W in (2,) if quick else (2, 3):
         cfgs.append(edit_cfg("", W, "any", "left", multiline=True, mask="*", unit="bytes"))
     return cfgs
@@ -683,26 +691,36 @@ def numeric_configs(tier):
     return out
 
 
+def text_sets(tier):
+    """(texts for the core configurations, texts for the other configurations)"""
+    full = ["a", " ", "\n", "中", "́"]
+    if tier == "quick":
+        core = list(texts_upto(full, 2)) + list(texts_upto(["a", " ", "中"], 3)) + EXTRA_TEXTS[:6]
+        other = list(texts_upto(full, 2)) + EXTRA_TEXTS[:6]
+    else:
+        core = list(texts_upto(full, 4)) + list(texts_upto(["a", " ", "中"], 5)) + EXTRA_TEXTS
+        other = list(texts_upto(full, 3)) + EXTRA_TEXTS
+    return list(dict.fromkeys(core)), list(dict.fromkeys(other))
+
+
+def is_core(cfg):
+    return cfg["caption"] == "" and cfg["unit"] == "str" and cfg["mask"] is None and not cfg["allow_tab"]
+
+
 def tasks_for(tier):
     quick = tier == "quick"
-    L = 3 if quick else 4
-    alpha = ["a", " ", "\n", "中", "́"]
-    base_texts = list(texts_upto(alpha, L)) + EXTRA_TEXTS
-    if not quick:
-        base_texts += list(texts_upto(["a", " ", "中"], 6))
-        base_texts = list(dict.fromkeys(base_texts))
+    core_texts, other_texts = text_sets(tier)
     tasks = []
     for cfg in numeric_configs(tier):
         tasks.append({"cfg": cfg, "inits": [("", 0)], "depth": 4 if quick else 5, "expand_len": 3 if quick else 4, "click_depth": 2})
-    chunk = 60 if quick else 120
+    per_task = 150 if quick else 400
     for cfg in configs(tier):
-        texts = base_texts
-        if not cfg["multiline"]:
-            pass  # newlines in the initial text are still legal (set programmatically)
+        texts = core_texts if is_core(cfg) else other_texts
         inits = [(t, p) for t in texts for p in range(len(t) + 1)]
-        for i in range(0, len(inits), chunk * 4):
-            tasks.append({"cfg": cfg, "inits": inits[i : i + chunk * 4], "depth": 3 if quick else 4, "expand_len": 8, "click_depth": 0 if quick else 1})
-    return tasks, L
+        for i in range(0, len(inits), per_task):
+            depth = (3 if is_core(cfg) else 2) if quick else 4
+            tasks.append({"cfg": cfg, "inits": inits[i : i + per_task], "depth": depth, "expand_len": 8, "click_depth": 0 if quick else 1, "pref_keys": ["up", "down", "a", "left"] if quick else PREF_KEYS})
+    return tasks
 
 
 def _merge(total, t):
@@ -758,17 +776,19 @@ def _result(name, rule, bound, exhaustive, total, clause, t0):
 def run(tier="quick", seed=0):
     t0 = time.time()
     procs = min(16, os.cpu_count() or 1)
-    tasks, L = tasks_for(tier)
+    tasks = tasks_for(tier)
     tasks.sort(key=lambda t: -(len(t["inits"]) if t["cfg"]["kind"] == "edit" else 10**6))
+    core_texts, other_texts = text_sets(tier)
     total = Tally()
     for t in _pool_map(explore, tasks, procs):
         _merge(total, t)
     ncfg = len(configs(tier))
     nnum = len(numeric_configs(tier))
     bound = (
-        f"Edit: {ncfg} configurations (wrap space/any/clip x align x width 1..{4 if tier == 'quick' else 6}, captions, multiline/allow_tab/mask, str and UTF-8 bytes) x all texts of length <= {L} over "
-        f"{{a, space, newline, 中, U+0301}} (+{len(EXTRA_TEXTS)} longer texts{'' if tier == 'quick' else ', all texts <= 6 over {a, space, 中}'}) x every cursor x every event ({len(PRINT_KEYS + NAV_KEYS + UNUSED_KEYS)} keys, a click on every cell, a button-3 press), "
-        f"preferred-column states expanded to event depth {3 if tier == 'quick' else 4}; numeric: {nnum} configurations, all key sequences up to length {4 if tier == 'quick' else 5} over {len(NUM_KEYS)} keys from the empty widget (memoised on state)"
+        f"Edit: {ncfg} configurations (wrap space/any/clip x align x width 1..{4 if tier == 'quick' else 6}; captions, multiline/allow_tab/mask, str and UTF-8 bytes) x "
+        f"{len(core_texts)} texts for the {sum(1 for c in configs(tier) if is_core(c))} plain configurations (all of length <= {2 if tier == 'quick' else 4} over {{a, space, newline, 中, U+0301}}, all <= {3 if tier == 'quick' else 5} over {{a, space, 中}}, {6 if tier == 'quick' else len(EXTRA_TEXTS)} longer ones) and {len(other_texts)} texts (all <= {2 if tier == 'quick' else 3}) for the others "
+        f"x every cursor x every event ({len(PRINT_KEYS + NAV_KEYS + UNUSED_KEYS)} keys, a click on every cell, a button-3 press), "
+        f"preferred-column states expanded to event sequences of length {'3 (plain configurations) / 2 (others)' if tier == 'quick' else 4}; numeric: {nnum} configurations, all key sequences up to length {4 if tier == 'quick' else 5} over {len(NUM_KEYS)} keys from the empty widget (memoised on state)"
     )
     checks = []
     for clause in CLAUSES:
